@@ -229,8 +229,9 @@ theorem allEv_cycle {P} {env : Env} (hP : EnvPred env P) (pre mid post : Method)
 
 theorem allEv_query {P} {env : Env} (hP : EnvPred env P) : AllEv P (query env) := by
   unfold query
-  intro s
-  exact AllEv.seq (allEv_deliver hP _ _ _ _) (allEv_deliver hP _ _ _ _) s
+  generalize headFirst Method.query = hfq
+  cases hfq <;> simp only [if_true, if_false, Bool.false_eq_true] <;>
+  exact fun s => AllEv.seq (allEv_deliver hP _ _ _ _) (allEv_deliver hP _ _ _ _) s
 
 theorem allEv_extChange {P} {env : Env} (hP : EnvPred env P) (d : Nat) (p : Option Nat) : AllEv P (extChange env d p) :=
   fun _ e he => mem_logEv hP _ _ e he
